@@ -19,6 +19,7 @@ where
     R: Read + AsRawFd + Send + 'static,
     W: Write + AsRawFd + Send + 'static,
 {
+    let resolver_address = resolver;
     let conn = Connection::new(resolver)
         .map_err(|e| format!("Failed to connect to resolver '{resolver}': {e}"))?;
 
@@ -74,7 +75,8 @@ where
 
             if iface != last_iface {
                 if iface.eq("org.varlink.resolver") {
-                    address = String::from("unix:/run/org.varlink.resolver");
+                    // the resolver this bridge was configured with answers for itself
+                    address = String::from(resolver_address);
                 } else {
                     address = match resolver.resolve(iface.clone()).call() {
                         Ok(r) => r.address,
